@@ -59,6 +59,23 @@ pub mod verif {
         *GATE.lock().expect("lock") = gate;
     }
 
+    type Sched = std::sync::Arc<dyn Fn(&'static str, &ckb_types::packed::Byte32) + Send + Sync>;
+    static SCHED: std::sync::RwLock<Option<Sched>> = std::sync::RwLock::new(None);
+
+    /// Install (or remove) the scheduler callback: it is called by the service, preload and verify
+    /// threads before each of their accesses to state they share (and when they go idle), and may
+    /// block the calling thread until a harness lets it continue
+    pub fn set_sched(sched: Option<Sched>) {
+        *SCHED.write().expect("lock") = sched;
+    }
+
+    pub(crate) fn point(site: &'static str, hash: &ckb_types::packed::Byte32) {
+        let sched = SCHED.read().expect("lock").clone();
+        if let Some(s) = sched {
+            s(site, hash);
+        }
+    }
+
     pub(crate) fn gate(point: &str, hash: &ckb_types::packed::Byte32) {
         let taken = GATE.lock().expect("lock").take();
         if let Some(mut g) = taken {
